@@ -154,6 +154,9 @@ sig_source_stop_filter(const struct video_source_s* source)
     // the filter thread.
     struct video_s* self = containerof(source, struct video_s, source);
     self->filter.is_stopping = 1;
+    // The filter may still have frames to emit: let it finish before the sink
+    // is told to flush and stop.
+    thread_join(&self->filter.thread);
 }
 
 static void
